@@ -530,8 +530,23 @@ template <typename C> struct recording_mpi_cb
     hep::mpi_callback<C> inner;
     std::vector<long long>* texts;
     std::vector<long long>* rets;
+    report_facts* rep;
     bool operator()(MPI_Comm comm, C const& c)
     {
+        if (rep && vt_this_rank() == 0)
+        {
+            // (rank 0 reports for the whole communicator: the same function of the checkpoint as in a serial run)
+            auto const& rs = c.results();
+            rep->n.push_back((long long) rs.back().calls());
+            rep->nz.push_back((long long) rs.back().non_zero_calls());
+            rep->nnf.push_back((long long) (rs.back().non_zero_calls() - rs.back().finite_calls()));
+            rep->e.push_back(report_token(rs.back().value()));
+            rep->err.push_back(report_token(rs.back().error()));
+            auto const all = hep::accumulate<hep::weighted_with_variance>(rs.begin(), rs.end());
+            rep->all_e.push_back(report_token(all.value()));
+            rep->all_err.push_back(report_token(all.error()));
+            rep->chi.push_back(report_token(hep::chi_square_dof<hep::weighted_with_variance>(rs.begin(), rs.end())));
+        }
         bool r = inner(comm, c);
         if (vt_this_rank() == 0) { texts->push_back(ids().id("t:" + text_of(c))); rets->push_back(r ? 1 : 0); }
         return r;
@@ -581,7 +596,7 @@ static void c20_run(rng& g, int shp, int variant, int world, double target, bool
                         std::string const rfile = rank == 0 ? file : file + ".rank" + std::to_string(rank);
                         if (rank != 0) { std::remove(rfile.c_str()); std::remove((rfile + ".tmp").c_str()); }
                         C r = K::mpi_run(comm, shp, variant, K::fresh(variant), plan,
-                            recording_mpi_cb<C>{hep::mpi_callback<C>((hep::callback_mode) mode, rfile, T(target)), &texts, &rets});
+                            recording_mpi_cb<C>{hep::mpi_callback<C>((hep::callback_mode) mode, rfile, T(target)), &texts, &rets, &rep});
                         finals[(std::size_t) rank] = ids().id("t:" + text_of(r));
                     }
                     catch (vt_deadlock const&) { throw; }
